@@ -187,3 +187,11 @@ Definition c08_atof_ok (t : list Z) (d : binary_float 53 1024) : bool :=
     then c08_parse_ok t d else true
   | None => true
   end.
+
+(* The same clause when undefined behaviour is observable: the parse must complete (r = Some)
+   and give the value back. *)
+Definition c08_int_strict_ok (v : Z) (text : list Z) (parsed : option Z) : bool :=
+  match parsed with
+  | Some r => c08_int_ok v text r
+  | None => false
+  end.
